@@ -50,6 +50,21 @@ def impl_msg(case):
             e = eval(repr(m))
             if e != m or type(e) is not type(m):
                 fail = f'eval(repr(m)) = {e!r} differs from {m!r}'
+        if fail is None:
+            # the dictionary belongs to the caller: changing it changes neither the message nor one built from it earlier
+            before = dict(vars(m))
+            dd = m.dict()
+            built = mido.Message.from_dict(dd)
+            dd['time'] = 987
+            for k2 in list(dd):
+                if isinstance(dd[k2], list):
+                    dd[k2].append(5)
+                elif k2 not in ('type', 'time'):
+                    dd[k2] = 1
+            if vars(m) != before or built != m:
+                fail = f'changing the dictionary returned by dict() changed the message ({vars(m)}) or a message built from it ({built!r})'
+            elif m.dict() != mido.Message(t, time=time, **d).dict():
+                fail = 'dict() of equal messages differs after a returned dictionary was changed'
         return 'ok ' + cps(s), fail
     except Exception as e:
         return 'err ' + exc_name(e), f'round trip of Message({t!r}, {d!r}, time={time!r}) raised {type(e).__name__}: {e}'
